@@ -26,10 +26,11 @@ func c19RegTiered(id string, quick, thorough []WorldRun, mons func(*worlds.World
 // valpay / valpay0 / valpayL: the same world with a mixed, an empty and a full set of stake locks; the first
 // explored block is the one before a payout (warm-up 122, period 4): payouts happen in the 2nd, 6th and 10th
 // explored block. Environments of valpay*: 0 all sign, 1 v1 absent, 2 v2's 13th miss (dropped: its accrual
-// returns to the pool), 3 v3+v4 absent, 4 nobody signs, 5 evidence [v4]. val adds the other vote vectors and the
+// returns to the pool), 3 v3+v4 absent, 4 nobody signs, 5 evidence [v4], 6 v1 not listed in the commit at all. val adds the other vote vectors and the
 // switch transactions.
 func init() {
-	first := func(n int) func(depth, env int) bool { return func(depth, env int) bool { return env < n } }
+	// the first n environments plus environment 6 (a validator that the commit does not list at all)
+	first := func(n int) func(depth, env int) bool { return func(depth, env int) bool { return env < n || env == 6 } }
 	// quick: the fee-paying Send only in the payout block (depth 1) and in the middle of the next period (depth 4)
 	sendAt := func(w *worlds.World) func(depth int, prefix []int, item int) bool {
 		return func(depth int, prefix []int, item int) bool { return item == 0 && (depth == 1 || depth == 4) }
